@@ -163,7 +163,14 @@ Definition multi_oracle (c : multi_case) : N :=
                       (combine (mf_prob f) (mf_pred f))) 16
    + flag (mat_finite (mf_Q f) && mat_finite (mf_W f) && vec_finite (mf_b f) && mat_finite (mf_prob f)
            && forallb (fun qp => softmax_close (qvec (snd qp)) (scoresQ k W b (qvec (fst qp))))
-                      (combine (mf_Q f) (mf_prob f))) 32)%N.
+                      (combine (mf_Q f) (mf_prob f))) 32
+   (* among classes whose exact scores x.W+b are equal (as rationals) the smallest class is predicted *)
+   + flag (forallb (fun qp => match class_index lab_eqb (snd qp) (mf_classes f) with
+                              | Some i => let s := scoresQ k W b (qvec (fst qp)) in
+                                          let si := nth i s 0%Q in
+                                          forallb (fun sj => negb (Qeq_bool sj si)) (firstn i s)
+                              | None => false end)
+                   (combine (mf_Q f) (mf_pred f))) 64)%N.
 
 (** * Tweedie GLM *)
 Record glm_fit := {
